@@ -4,8 +4,8 @@ CONSTANTS
   Soc0s <- SocAll
   Dts <- Dt2
   Engs <- Bools
-  ClsOn <- ConvCls
-  ClsOff <- ConvOff
+  ClsOn <- T4C_On
+  ClsOff <- ClsZeroDyn
   Depth = 4
 INVARIANT L1
 INVARIANT L1s
